@@ -127,6 +127,9 @@ func runC01(w *vx.W) {
 	c01Corpus(c)
 	c01DevFields(c)
 	c01FieldDescriptions(c)
+	mixLongRunsTotality(w, "m:long-runs", func(l longRun, entry, pn string, stream []byte) {
+		w.Violation("panic/"+entry+"/"+panicClass(pn), fmt.Sprintf("long run %s: %s panics: %s", l, entry, pn), c01Replay{entry, vx.Hex(stream), 0})
+	})
 	c01Chains(c)
 	c01Substitutions(c)
 	c01LyingSizes(c)
